@@ -77,11 +77,15 @@ impl SimpleOpHeadsStore {
     }
 
     fn add_op_head(&self, id: &OperationId) -> Result<(), PathError> {
+        #[cfg(jj_vcs_jj_verif)]
+        crate::verif_hooks::point("opheads.add", &id.hex());
         let path = self.dir.join(id.hex());
         std::fs::write(&path, "").context(path)
     }
 
     fn remove_op_head(&self, id: &OperationId) -> Result<(), PathError> {
+        #[cfg(jj_vcs_jj_verif)]
+        crate::verif_hooks::point("opheads.remove", &id.hex());
         let path = self.dir.join(id.hex());
         std::fs::remove_file(&path)
             .or_else(|err| {
@@ -104,6 +108,27 @@ struct SimpleOpHeadsStoreLock {
 }
 
 impl OpHeadsStoreLock for SimpleOpHeadsStoreLock {}
+
+#[cfg(jj_vcs_jj_verif)]
+impl Drop for SimpleOpHeadsStoreLock {
+    fn drop(&mut self) {
+        crate::verif_hooks::point("opheads.unlock", "");
+    }
+}
+
+/// Stand-in for the lock when verification disables locking.
+#[cfg(jj_vcs_jj_verif)]
+struct VerifNoLock;
+
+#[cfg(jj_vcs_jj_verif)]
+impl OpHeadsStoreLock for VerifNoLock {}
+
+#[cfg(jj_vcs_jj_verif)]
+impl Drop for VerifNoLock {
+    fn drop(&mut self) {
+        crate::verif_hooks::point("opheads.unlock", "");
+    }
+}
 
 #[async_trait]
 impl OpHeadsStore for SimpleOpHeadsStore {
@@ -135,6 +160,8 @@ impl OpHeadsStore for SimpleOpHeadsStore {
     }
 
     async fn get_op_heads(&self) -> Result<Vec<OperationId>, OpHeadsStoreError> {
+        #[cfg(jj_vcs_jj_verif)]
+        crate::verif_hooks::point("opheads.read", "");
         let mut op_heads = vec![];
         for op_head_entry in
             std::fs::read_dir(&self.dir).map_err(|err| OpHeadsStoreError::Read(err.into()))?
@@ -162,6 +189,13 @@ impl OpHeadsStore for SimpleOpHeadsStore {
     }
 
     async fn lock(&self) -> Result<Box<dyn OpHeadsStoreLock + '_>, OpHeadsStoreError> {
+        #[cfg(jj_vcs_jj_verif)]
+        {
+            crate::verif_hooks::point("opheads.lock", "");
+            if crate::verif_hooks::lock_disabled() {
+                return Ok(Box::new(VerifNoLock));
+            }
+        }
         let lock = FileLock::lock(self.dir.join("lock"))
             .map_err(|err| OpHeadsStoreError::Lock(err.into()))?;
         Ok(Box::new(SimpleOpHeadsStoreLock { _lock: lock }))
